@@ -436,7 +436,18 @@ def run_chain_unit(unit, res, c, progress):
 
 
 def tb_line(name, rnd):
-    return '  File "%s", line %d, in %s\n' % (rnd.choice(["asynq/async_task.py", "app/x.py", "asynq/futures.py", "lib/y.py"]), rnd.randint(1, 400), name)
+    path = rnd.choice(["asynq/async_task.py", "app/x.py", "asynq/futures.py", "lib/y.py"])
+    if rnd.random() < 0.12:
+        # an installation below a deep directory: lines far longer than anything the dump helpers truncate at
+        path = "/srv/" + "/".join("release-%04d" % rnd.randint(0, 9999) for _ in range(rnd.choice([18, 25, 60, 110]))) + "/" + path
+    return '  File "%s", line %d, in %s\n' % (path, rnd.randint(1, 400), name)
+
+
+def code_line(rnd):
+    if rnd.random() < 0.15:
+        n = rnd.choice([239, 240, 241, 500, 5000])
+        return "    query = '%s'\n" % ("x" * n)
+    return "    some_code(%d)\n" % rnd.randint(0, 9)
 
 
 FOREIGN = ["user_fn", "handler", "compute", "main", "<module>", "load", "render"]
@@ -451,7 +462,7 @@ def make_tb_text(rnd):
             for _ in range(rnd.randint(1, 3)):
                 lines.append(tb_line(rnd.choice(FOREIGN), rnd))
                 if rnd.random() < 0.5:
-                    lines.append("    some_code(%d)\n" % rnd.randint(0, 9))
+                    lines.append(code_line(rnd))
         elif r < 0.65:
             pat, _name = rnd.choice(PATTERNS)
             for p in pat:
@@ -486,7 +497,8 @@ def make_tb_text(rnd):
         meta["partial"] += 1
         meta["ends_in_partial_run"] = k
     elif rnd.random() < 0.3:
-        lines.append("UserErr: boom\n")
+        lines.append("UserErr: boom%s\n" % ("!" * rnd.choice([0, 0, 300, 2000])))
+    meta["long_lines"] = sum(1 for l in lines if len(l) > 240)
     return lines, meta
 
 
@@ -508,6 +520,7 @@ def run_filter_unit(unit, res, c, progress):
         c["filter_inputs"] = c.get("filter_inputs", 0) + 1
         c["filter_complete_runs"] = c.get("filter_complete_runs", 0) + meta["complete"]
         c["filter_partial_runs"] = c.get("filter_partial_runs", 0) + meta["partial"]
+        c["filter_lines_longer_than_240_characters"] = c.get("filter_lines_longer_than_240_characters", 0) + meta["long_lines"]
         if meta.get("ends_in_partial_run"):
             c["filter_inputs_ending_inside_a_run"] = c.get("filter_inputs_ending_inside_a_run", 0) + 1
         if meta["complete"] or meta["partial"]:
@@ -540,6 +553,13 @@ def run_filter_unit(unit, res, c, progress):
 
 # ---------------------------------------------------------------------------
 # (c) format_error
+
+
+def _raised_long():
+    try:
+        raise KeyError("key " + "k" * 900)
+    except KeyError as e:
+        return e
 
 
 def run_format_error_unit(unit, res, c, progress):
@@ -598,6 +618,8 @@ def run_format_error_unit(unit, res, c, progress):
         ("chained", chained()),
         ("chained-through-asynq", chained_asynq()),
         ("odd-str", Odd()),
+        ("long-message", ValueError("rows: " + ", ".join("row%04d" % k for k in range(150)))),
+        ("long-message-raised", (lambda: [e for e in [None] if False] or _raised_long())()),
         ("base-exception", KeyboardInterrupt()),
         ("none", None),
         ("not-an-exception", "just a string"),
@@ -616,6 +638,9 @@ def run_format_error_unit(unit, res, c, progress):
                         r = adebug.format_error(err, tb=tb)
                         ok = (r is None) if err is None else isinstance(r, str)
                         out = ("val", type(r).__name__)
+                        if ok and name.startswith("long-message") and err.args[0] not in r:
+                            ok = False
+                            out = ("val", "the text lacks part of the exception's message (%d characters)" % len(err.args[0]))
                     except BaseException as e:
                         ok = False
                         out = ("exc", exc_desc(e))
